@@ -73,7 +73,7 @@ func Tokens(src []byte, root ast.Vertex, clean bool) (vs []V) {
 		if p.EndPos > prevEnd {
 			prevEnd = p.EndPos
 		}
-		if clean && tr.Free {
+		if clean && tr.Free && t.ID != token.T_HALT_COMPILER { // what follows __halt_compiler(); is data, whatever it looks like
 			cls := lexm.Classify(t.Value)
 			switch cls {
 			case lexm.Whitespace:
